@@ -179,7 +179,13 @@ def write_replay(path, harness, params, inputs, uf):
             for args, val in tab.get('entries', []): f.write('ufe %s %d %s %d\n' % (key, len(args), ' '.join(str(a) for a in args), val))
 
 
-def run_native(binp, harness, replay, timeout=10):
+def run_native(binp, harness, replay, timeout=10, retries=0):
+    # retries: a sample replay that is expected to finish is re-run with a longer timeout before a timeout is believed
+    # (ASan/LSan start-up can stall for seconds on an oversubscribed machine)
+    for attempt in range(retries):
+        r = run_native(binp, harness, replay, timeout * (1 + 2 * attempt))
+        if r['end'] != 'timeout': return r
+    if retries: timeout = timeout * (1 + 2 * retries)
     env = dict(os.environ); env['ASAN_OPTIONS'] = 'detect_leaks=1:abort_on_error=0:exitcode=42:allocator_may_return_null=1'; env['UBSAN_OPTIONS'] = 'print_stacktrace=0:halt_on_error=1:exitcode=43'
     try:
         p = subprocess.run([binp, harness, replay], stdout=subprocess.PIPE, stderr=subprocess.PIPE, timeout=timeout, env=env)
@@ -295,7 +301,7 @@ def main():
         rnd2 = random.Random(seed * 7919 + i); rnd2.shuffle(smp)
         for k, sm in enumerate(smp[:int(h.opts.get('validate', 4))]):
             rp = os.path.join(rdir, '%s-%s-sample%d.replay' % (prop, h.key, k)); write_replay(rp, h.name, h.params, sm['inputs'], sm.get('uf'))
-            nat = run_native(binp, h.name, rp)
+            nat = run_native(binp, h.name, rp, retries=2)
             exp_end = 'done' if sm['end'] == 'done' else sm['end']
             ok = (nat['end'] == 'done' and sm['end'] == 'done' and nat['out'] == [[t, v] for t, v in sm['out']] and nat['reach'] == sm['reach']) or \
                  (sm['end'].startswith('throw:') and nat['end'].startswith('terminate:'))
